@@ -397,7 +397,7 @@ func (e *Env) selectField(b tv, name string) tv {
 		evalFail("no field %s in %s", name, b.T)
 	}
 	cur, curT := b.V, b.T
-	for _, idx := range path {
+	for i, idx := range path {
 		// auto-dereference
 		if pt, ok := types.Unalias(curT).Underlying().(*types.Pointer); ok {
 			owner := namedOf(pt.Elem())
@@ -409,6 +409,12 @@ func (e *Env) selectField(b tv, name string) tv {
 				evalFail("field access through %T", cur)
 			}
 			f := structOf(owner).Field(idx)
+			if mt, isMap := types.Unalias(f.Type()).Underlying().(*types.Map); isMap {
+				mp := readField(e.h(), owner, idx, ot).(*Term)
+				if i == len(path)-1 {
+					return tv{mapV{Name: mapArrBase(mt), Addr: mp, KeyT: mt.Key(), ValT: mt.Elem()}, f.Type()}
+				}
+			}
 			if isNamed(types.Unalias(f.Type()), "sync", "Map") {
 				spec := e.eng.cs.SyncMaps[owner.Obj().Pkg().Path()+"."+owner.Obj().Name()+"."+f.Name()]
 				if spec == nil {
@@ -487,6 +493,8 @@ func valEq(a, b tv) *Term {
 			return Eq(x.Tag, IntLit(0))
 		case SliceV:
 			return Eq(x.Ref, IntLit(0))
+		case mapV:
+			return Eq(x.Addr, IntLit(0))
 		case nilV:
 			return True
 		}
@@ -1022,6 +1030,33 @@ func (e *Env) call(n *ast.CallExpr) tv {
 		}
 		r := fnApply(sig, ft, as)
 		return tv{r[0], sig.Results().At(0).Type()}
+	case "noopfn":
+		return tv{App("noopfn", BoolS, argT(0)), nil}
+	case "mkstruct":
+		// mkstruct(T, f0, f1, ...): a struct value of type T
+		t := e.resolveType(n.Args[0])
+		st := structOf(t)
+		if t == nil || st == nil || st.NumFields() != len(n.Args)-1 {
+			evalFail("mkstruct: bad type or field count")
+		}
+		sv := StructV{T: t}
+		for i := 0; i < st.NumFields(); i++ {
+			sv.F = append(sv.F, e.coerceTo(arg(i+1), st.Field(i).Type()))
+		}
+		return tv{sv, t}
+	case "cancelled": // cancelled(ctx): the context (interface value) has been cancelled
+		c, ok := arg(0).V.(IfaceV)
+		if !ok {
+			evalFail("cancelled expects a context value")
+		}
+		return tv{Select(heapArr(e.h(), "G|cancelled", ArrayS(IntS, BoolS)), c.Val), nil}
+	case "cancels": // cancels(f, ctx): f is the cancel function of ctx
+		f := argT(0)
+		c, ok := arg(1).V.(IfaceV)
+		if !ok {
+			evalFail("cancels expects (func, context)")
+		}
+		return tv{Eq(App("ctxOfCancel", IntS, f), c.Val), nil}
 	case "world":
 		return tv{worldOf(e.h()), nil}
 	case "ret", "worldAfter", "retW", "worldAfterW":
